@@ -1,7 +1,11 @@
 import ZV.Model.C28
+import ZV.Model.C28Sched
 /-! line protocol for C28 (see go/props/c28):
     `c28 sh|ch|cert|cert13|fin <msg hex>`  and
-    `c28 skx <kex> <vers> <keytype> <client sigalgs> <pointOK> <client random> <server random> <cert (ignored)> <msg hex>` -/
+    `c28 skx <kex> <vers> <keytype> <client sigalgs> <pointOK> <client random> <server random> <cert (ignored)> <msg hex>`
+    `c28 sched <base (ignored)> <offered 0|1> <items>`  items: comma separated tokens
+       sh:<versOK><tls13><ok><resume><ocsp><ticket><hrr><psk><r|e|d>  cert:<nonEmpty><parse><verify><kxKey>  status  skx:<ok>
+       creq  shd  nst  fin:<ok>  ee:<ok><alpn>  cv:<ok>  other  ccs -/
 namespace ZV.C28
 
 def showB (b : Bool) : String := if b then "1" else "0"
@@ -35,6 +39,54 @@ def parseNats (s : String) : Option (List Nat) :=
 
 def parseKT (s : String) : Option KeyType :=
   if s == "rsa" then some .rsa else if s == "ecdsa" then some .ecdsa else if s == "ed25519" then some .ed25519 else none
+
+/-! ### logging schedule -/
+
+def bitOf (c : Char) : Option Bool := if c == '1' then some true else if c == '0' then some false else none
+
+def parseItem (t : String) : Option Item :=
+  match t.splitOn ":" with
+  | ["status"] => some .certStatus
+  | ["creq"] => some .certRequest
+  | ["shd"] => some .serverHelloDone
+  | ["nst"] => some .newSessionTicket
+  | ["other"] => some .other
+  | ["ccs"] => some .ccs
+  | ["skx", a] => match a.toList.mapM bitOf with
+    | some [b] => some (.serverKeyExchange b)
+    | _ => none
+  | ["fin", a] => match a.toList.mapM bitOf with
+    | some [b] => some (.finished b)
+    | _ => none
+  | ["cv", a] => match a.toList.mapM bitOf with
+    | some [b] => some (.certVerify b)
+    | _ => none
+  | ["ee", a] => match a.toList.mapM bitOf with
+    | some [b, c] => some (.encryptedExtensions b c)
+    | _ => none
+  | ["cert", a] => match a.toList.mapM bitOf with
+    | some [b, c, d, e] => some (.certificate ⟨b, c, d, e⟩)
+    | _ => none
+  | ["sh", a] =>
+    match (a.toList.take 8).mapM bitOf, a.toList.drop 8 with
+    | some [v, t, o, r, oc, ti, h, p], [k] =>
+      let kex : Option Kex := if k == 'r' then some .rsa else if k == 'e' then some .ecdhe else if k == 'd' then some .dhe else none
+      match kex with
+      | some kx => some (.serverHello ⟨v, t, o, r, oc, ti, h, p, kx⟩)
+      | none => none
+    | _, _ => none
+  | _ => none
+
+def showIdx : Option Nat → String
+  | none => "-"
+  | some i => toString i
+
+def showHLog (l : HLog) : String :=
+  let tk := match l.ticket with
+    | .none => "-"
+    | .cache => "cache"
+    | .msg i => s!"m{i}"
+  s!"ch={showB l.clientHello} sh={showIdx l.serverHello} certs={showIdx l.certs} parsed={showB l.parsed} skx={showIdx l.skx} ckx={showB l.ckx} cfin={showB l.clientFin} sfin={showIdx l.serverFin} tick={tk} km={showB l.keyMaterial} alpn={showB l.alpn13} done={showB l.done}"
 
 def handle (args : List String) : String :=
   match args with
@@ -82,6 +134,10 @@ def handle (args : List String) : String :=
         | none => "err"
         | some l => showECDHE l
     | _, _, _, _, _, _ => "bad-op"
+  | ["sched", _base, off, items] =>
+    match (if items == "-" then some [] else (items.splitOn ",").mapM parseItem) with
+    | none => "bad-op"
+    | some ins => showHLog (clientLog (off == "1") ins)
   | _ => "bad-op"
 
 end ZV.C28
